@@ -102,6 +102,16 @@ def user_certificate(sense, variant):
             bL = m.st(x[0] >= c.fresh_real("l0"))
             extra = [bU] if isinstance(bU, lp.LinConstr) else []
             bounds = [(bU2, [0], "U"), (bL, [0], "L")] + ([] if extra else [(bU, [1, 2], "U")])
+        elif variant == "permuted":
+            # the i-th dual value belongs to the i-th entry AS THE USER WROTE the slice
+            bU = m.st(x[[2, 0, 1]] <= c.fresh_real("u0"))
+            bL = m.st(x[::-1] >= c.fresh_real("l0"))
+            bounds = [(bU, [2, 0, 1], "U"), (bL, [2, 1, 0], "L")]
+        elif variant == "permuted-partial":
+            bU = m.st(x[[2, 0]] <= c.fresh_real("u0"))
+            bU2 = m.st(x[1] <= c.fresh_real("u1"))
+            bL = m.st(x[2:0:-1] >= c.fresh_real("l0"))
+            bounds = [(bU, [2, 0], "U"), (bU2, [1], "U"), (bL, [2, 1], "L")]
         else:
             bU = m.st(x <= u)
             bL = m.st(x >= sym_array(c, (3,), "l"))
@@ -288,7 +298,7 @@ def ecos_contract(ns, sol):
 
 
 def jobs(tier):
-    js = [{"name": f"certificate-{s}-{v}", "kind": "cert", "sense": s, "variant": v} for s in ("min", "max") for v in ("whole", "slices")]
+    js = [{"name": f"certificate-{s}-{v}", "kind": "cert", "sense": s, "variant": v} for s in ("min", "max") for v in ("whole", "slices", "permuted", "permuted-partial")]
     js += [{"name": "unsolved", "kind": "unsolved"}, {"name": "extraction", "kind": "extraction"}]
     return js
 
